@@ -350,27 +350,39 @@ impl FixtureDatabase {
 
         debug!("Cleaning up cache for file: {:?}", canonical);
 
-        // Remove from line_index_cache
-        self.line_index_cache.remove(&canonical);
+        // Serialised with the analyses of the file (and with the import scan's look at it):
+        // nobody sees the text of one version next to the AST of another, or neither.
+        let lock = self.analysis_lock(&canonical);
+        let _guard = lock.lock().unwrap();
 
-        // Remove from ast_cache
-        self.ast_cache.remove(&canonical);
-
-        // Remove from file_cache. While a workspace scan is running the entry is its record
-        // that the file has been analysed (the import scan builds its work list from the
-        // cached files): put the on-disk text there instead and let eviction drop it later.
+        // Remove from file_cache. While a workspace scan is running the entry of an indexed
+        // file is the scan's record that the file has been analysed (the import scan builds
+        // its work list from the cached files): put the on-disk text there instead and let
+        // eviction drop it later. For a file that is not indexed (a module whose buffer never
+        // parsed) an entry would read as another thread's claim to analyse it: remove it.
         let scanning = self
             .scans_in_progress
             .load(std::sync::atomic::Ordering::SeqCst)
             > 0;
+        let indexed = self.file_definitions.contains_key(&canonical)
+            || self.imports.contains_key(&canonical)
+            || self.usages.contains_key(&canonical);
         match std::fs::read_to_string(&canonical) {
-            Ok(disk_content) if scanning => {
-                self.file_cache.insert(canonical.clone(), Arc::new(disk_content));
+            Ok(disk_content) if scanning && indexed => {
+                self.file_cache
+                    .insert(canonical.clone(), Arc::new(disk_content));
             }
             _ => {
                 self.file_cache.remove(&canonical);
             }
         }
+
+        // Remove from line_index_cache
+        self.line_index_cache.remove(&canonical);
+
+        // Remove from ast_cache (after the text: while the buffer did not parse this is the
+        // AST of the last valid version, which stands for the file's imports)
+        self.ast_cache.remove(&canonical);
 
         // Remove from available_fixtures_cache (this file's cached available fixtures)
         self.available_fixtures_cache.remove(&canonical);
